@@ -19,6 +19,15 @@ CHECKS = {
             "AST compared structurally with the generating tree.",
             "Trusted: spec/OData.tla precedence table (transcribed from OData 4.01 5.1.1.14), harness/project.py "
             "AST projection, TLC. Bounded: <=2/3 operators; deeper trees only by simulation."),
+    "C13": ("DESIGN.md 6/C13",
+            "TLC-enumerated parser-image trees replayed through the real round-trip printer + parser; the emitted text "
+            "is additionally read by the TLA+ lexer/parser spec (trace validation, Trace_Text)",
+            "Exhaustive up to the bound: every tree of MC_C13's two profiles (all literal kinds/paths/calls/lambdas in "
+            "every operand position; every operator nesting up to 2 (thorough 3) operators) is rendered by "
+            "AstToODataVisitor; parse(render(t)) = t and the render fixpoint are checked on the real code, and TLC "
+            "validates each emitted text against the specification's own lexer+parser machine, whose own "
+            "print/read-back theorem TLC checks on the same trees.",
+            "Trusted: spec/Lex.tla, spec/OData.tla (self-checked), harness/project.py. Bounded tree size."),
 }
 
 PENDING = ["C01", "C02", "C03", "C04", "C06", "C07", "C08", "C09", "C10", "C11", "C12", "C13", "C14", "C15",
